@@ -9,7 +9,7 @@ import exprcommon as xc
 from common import NCPU, MachineryError, Outcome, cached, drive, run_parallel, seed, tagged_lines, tlc, tlc_ok, tlc_violation, workdir
 
 OPS = {
-    "C13": {"mul", "div", "marg", "cond", "nmarg", "fsimp", "ssimp", "contract", "rcontract", "chain", "fexp", "bexp"},
+    "C13": {"mul", "div", "rmul", "rdiv", "marg", "cond", "nmarg", "fsimp", "ssimp", "contract", "rcontract", "chain", "fexp", "bexp"},
     "C10": {"canon"},
     "C12": {"pp"},
     "C11": {"canon"},
@@ -53,7 +53,7 @@ def terms_for(wd, pid, tier):
     pick = lambda ts, k: ts if len(ts) <= k else rng.sample(ts, k)  # noqa: E731
     t4 = []
     if pid == "C13":
-        fr = [t for t in base if t["m"]["op"] in ("div", "cond", "nmarg")]
+        fr = [t for t in base if t["m"]["op"] in ("div", "rdiv", "cond", "nmarg")]
         t4 += closing(fr if not q else fr, "fsimp", "fs:")          # every fraction-rooted term, both tiers
         t4 += closing([t for t in base if t["m"]["op"] == "marg"], "ssimp", "ss:")
         t4 += closing(pick(fr, 2500 if q else 20000), "contract", "ct:")
@@ -63,6 +63,8 @@ def terms_for(wd, pid, tier):
             t4 += closing(pick(base, 1500 if q else 15000), "canon", f"cn{k}:", {"ord": o})
     elif pid == "C12":
         t4 += closing(pick(base, 3000 if q else 30000), "pp", "pp:")
+        # every product-rooted term (factor order and ties in the sort keys matter for the round trip)
+        t4 += closing([t for t in all2 if t["m"]["op"] in ("mul", "rmul")], "pp", "ppm:")
     return t1 + t2 + t3 + t4, [d1, d2, sims]
 
 
